@@ -1237,8 +1237,50 @@ func (p *Prog) symbolRangeValidator(fn *ssa.Function) bool {
 	return hasLen && hasString && hasVar && fields["facts"] && fields["rules"] && fields["checks"]
 }
 
+// wrExtendDedup: the disjointness tests of the decoders ("the table grew by exactly the number of
+// symbols received") rest on Extend adding a symbol only if the table does not hold it yet - i.e. on
+// Extend being the element-wise Insert. Extend must write its receiver only through Insert, once per
+// element of the other table.
+func wrExtendDedup(p *Prog, r *Reporter) {
+	st := p.NamedType("datalog", "SymbolTable")
+	var ext *ssa.Function
+	if st != nil {
+		ext = p.method(st, "Extend")
+	}
+	if ext == nil || len(ext.Params) < 2 {
+		r.Dunno("?", "datalog.SymbolTable", "Extend", "not found")
+		return
+	}
+	name := p.FuncName(ext)
+	o := p.own()
+	direct := ""
+	for _, w := range o.writesOf(ext) {
+		if w.org.root == ssa.Value(ext.Params[0]) {
+			direct = w.what
+		}
+	}
+	r.Check(direct == "", p.Pos(ext.Pos()), name, "writes only through Insert", "Extend does not write its receiver itself", "Extend writes its receiver directly ("+direct+") instead of through Insert: symbols the table already holds are added again, so the decoders' test 'the table grew by exactly the received symbols' no longer detects a table that repeats a known symbol, and the indexes of the received content resolve to other strings")
+	okLoop := false
+	for _, l := range rangeLoops(ext) {
+		if !dependsOn(l.seq, func(x ssa.Value) bool { return x == ssa.Value(ext.Params[1]) }) {
+			continue
+		}
+		for _, c := range callsIn(ext) {
+			cv, isC := c.(*ssa.Call)
+			if !isC || cv.Call.StaticCallee() == nil || cv.Call.StaticCallee().Name() != "Insert" || len(cv.Call.Args) < 2 {
+				continue
+			}
+			if cv.Call.Args[0] == ssa.Value(ext.Params[0]) && l.isElem(unwrap(cv.Call.Args[1])) && cv.Block() == l.bodyBB {
+				okLoop = true
+			}
+		}
+	}
+	r.Check(okLoop, p.Pos(ext.Pos()), name, "every element inserted", "a full-range loop over the other table calls Insert on every element unconditionally", "Extend has no full-range loop over the other table that calls t.Insert(element) unconditionally")
+}
+
 func ruleWRSymRange(p *Prog, r *Reporter) {
 	globalP = p
+	wrExtendDedup(p, r)
 	n := 0
 	for _, fn := range p.funcsIn("biscuit") {
 		var env *ssa.Alloc
